@@ -25,6 +25,18 @@ import (
 //     says the sources can give, from the balances at that point of the script
 //   - Machine.Balances (tracked pairs) == initial - saved + postings
 //
+// The amount of `send $bal` ($bal = balance(@a, COIN), resolved before the script
+// runs) is the INITIAL balance of @a from the input vector, never a value read back
+// from the machine: the pair stage has every order (statement crediting / saving /
+// draining @a ; send $bal ...).
+//
+// After every run (successful or not) the state that outlives it is checked: the
+// package-level values machine.Zero and ledger.Zero are still 0 and the compiled
+// program (cached and shared between requests by the ledger) still has its constants.
+// A run is a function of (program, vars, balances): one that changes this state makes
+// every later send of the process move a wrong amount. globalGuard (explore.go) keeps
+// the parallel workers independent when that happens and names the run that did it.
+//
 // Postings are attributed to statements by running the one-statement prefix of a
 // two-send program on the same input: its postings are a prefix of the full run.
 func init() { reg.Register("C22", c22) }
@@ -34,22 +46,45 @@ type c22Local struct {
 	prefixVars []string
 	nontrivial bool
 	hasSave    bool
+	fp         string // programFingerprint of the compiled program before its first run
 }
 
 func c22() int {
 	tuneRuntime()
 	r := ev.Start("C22", ev.LevelExploration, 100*time.Second, 15*time.Minute)
 	sp := numscriptSpace(r.Thorough())
+	// The small stages go first (statement menu alone, variable amounts, every ordered pair
+	// of the statement menu: save, balance() variables, two sends, second asset): a run cut
+	// by its budget on a loaded machine has then covered every statement kind and every
+	// two-statement order, and what it loses is the tail of the big one-send products.
+	sp.Stages = stagesFirst(sp.Stages, "E4:", "E3:", "E5:")
+	guard := &globalGuard{}
 	samples := ev.NewSamples(6)
 	var nontrivial, sendsChecked, sendAllChecked, sendAllPositive, keptChecked, keptPositive, balancesChecked, balancePairs, refUndecided, twoSend atomic.Int64
+	var balVarSends, balVarAfterCredit, balVarAfterChange, creditAfterSaveAll, programChecks atomic.Int64
 
 	viol := func(sig, what string, pc *progCtx, env *gen.Env, res *machineRun) {
 		r.Violation(sig, what+" | program: "+pc.Text, replayObj(pc.Text, env, map[string]any{"postings": postingsString(res.Postings), "machine_balances": balString(res.Balances)}))
 	}
 
+	// state that outlives the run: evaluated for EVERY run, before anything else
+	globalChecks := func(pc *progCtx, l *c22Local, env *gen.Env, res *machineRun, which string) {
+		for _, d := range res.GlobalsMutated {
+			viol("C22:global-state:"+d.Name, fmt.Sprintf("after this run (%s, outcome %s, alone in the process, from restored globals) the package-level value %s is %s instead of 0: every later run of the process computes with it", which, runOutcome(res), d.Name, d.What), pc, env, res)
+		}
+		if which == "program" {
+			programChecks.Add(1)
+			if fp := programFingerprint(pc.Prog); fp != l.fp {
+				viol("C22:global-state:compiled-program", fmt.Sprintf("the run (outcome %s) changed the compiled program (instructions|resources): before %s, after %s", runOutcome(res), l.fp, fp), pc, env, res)
+				l.fp = fp
+			}
+		}
+	}
+
 	v := machineVisitor{
+		Guard: guard,
 		Begin: func(pc *progCtx) {
-			l := &c22Local{}
+			l := &c22Local{fp: programFingerprint(pc.Prog)}
 			pc.Local = l
 			nSend := 0
 			for _, s := range pc.P.Stmts {
@@ -72,6 +107,7 @@ func c22() int {
 			}
 		},
 		Each: func(pc *progCtx, env *gen.Env, res *machineRun) {
+			globalChecks(pc, pc.Local.(*c22Local), env, res, "program")
 			if res.Panic != nil {
 				r.Note(fmt.Sprintf("panic (reported by C27, not a C22 matter): %v | %s", res.Panic, pc.Text))
 				return
@@ -109,7 +145,8 @@ func c22() int {
 						pv[n] = val
 					}
 				}
-				pres := runMachine(l.prefix, pv, vmStore{newFakeStore(env)})
+				pres, _ := guard.run(l.prefix, pv, func() *fakeStore { return newFakeStore(env) })
+				globalChecks(pc, l, env, &pres, "its first statement alone")
 				if pres.Err != nil || pres.Panic != nil {
 					r.EngineError(fmt.Sprintf("attribution: first statement alone fails (%v/%v) while the two-statement program succeeds: %s", pres.Err, pres.Panic, pc.Text))
 					return
@@ -137,6 +174,8 @@ func c22() int {
 					cur.get(a, k).Set(val)
 				}
 			}
+			credited := map[string]bool{} // pairs an earlier posting credited with a positive amount
+			savedAll := map[string]bool{} // tracked pairs a `save [A *]` emptied (positive balance) so far
 			for i, s := range pc.P.Stmts {
 				switch s.K {
 				case gen.StSave:
@@ -148,6 +187,9 @@ func c22() int {
 						asset, _ := env.AssetOf(s.Asset)
 						if b := cur.get(acc, asset); b.Sign() > 0 {
 							b.SetInt64(0)
+							if _, tracked := res.Balances[acc][asset]; tracked {
+								savedAll[acc+"\x00"+asset] = true
+							}
 						}
 					} else if asset, amt, ok := env.Monetary(s.Amt); ok {
 						b := cur.get(acc, asset)
@@ -159,6 +201,18 @@ func c22() int {
 					var amount *big.Int
 					decided := true
 					kind := "send-amount"
+					// amount = a balance() variable: was its account credited / changed before?
+					balVar, balCredited, balChanged := false, false, false
+					if d, isVar := pc.P.Cat[s.Amt.Var]; !s.All && isVar && d.Origin == "balance" {
+						if oacc, ok1 := env.Account(d.OAcc); ok1 {
+							if oasset, ok2 := env.AssetOf(d.OKey); ok2 {
+								balVar = true
+								kind = "send-amount:balance-variable"
+								balCredited = credited[oacc+"\x00"+oasset]
+								balChanged = cur.get(oacc, oasset).Cmp(env.Balance(oacc, oasset)) != 0
+							}
+						}
+					}
 					if s.All {
 						kind = "send-star"
 						asset, _ = env.AssetOf(s.Asset)
@@ -183,6 +237,13 @@ func c22() int {
 						sb.Sub(sb, amt)
 						db := cur.get(p.Destination, p.Asset)
 						db.Add(db, amt)
+						if amt.Sign() > 0 {
+							key := p.Destination + "\x00" + p.Asset
+							credited[key] = true
+							if savedAll[key] {
+								creditAfterSaveAll.Add(1)
+							}
+						}
 					}
 					if !decided {
 						refUndecided.Add(1)
@@ -195,6 +256,15 @@ func c22() int {
 					}
 					want := new(big.Int).Sub(amount, kept)
 					sendsChecked.Add(1)
+					if balVar {
+						balVarSends.Add(1)
+						if balCredited {
+							balVarAfterCredit.Add(1)
+						}
+						if balChanged {
+							balVarAfterChange.Add(1)
+						}
+					}
 					if s.All {
 						sendAllChecked.Add(1)
 						if amount.Sign() > 0 {
@@ -261,11 +331,17 @@ func c22() int {
 			r.EngineError("vacuous: Machine.Balances never had a tracked pair")
 		case twoSend.Load() == 0:
 			r.EngineError("vacuous: no two-send program succeeded")
+		case balVarAfterCredit.Load() == 0:
+			r.EngineError("vacuous: no `send $bal` ($bal = balance(X, A)) was checked after an earlier statement had credited X in A")
+		case creditAfterSaveAll.Load() == 0:
+			r.EngineError("vacuous: no successful run credited a tracked account after `save [A *]` had emptied it")
+		case guard.Checks.Load() < st.Evals.Load() || programChecks.Load() != st.Evals.Load():
+			r.EngineError(fmt.Sprintf("vacuous: the global-state invariant was not evaluated after every run (%d package-level / %d compiled-program evaluations for %d runs)", guard.Checks.Load(), programChecks.Load(), st.Evals.Load()))
 		}
 	}
 	cov := ev.Coverage{
 		"distinct_nontrivial":           nontrivial.Load(),
-		"rule":                          sp.Rule + "; distinct_nontrivial = distinct programs that compiled AND had at least one successful run producing >= 1 posting",
+		"rule":                          sp.Rule + "; stages run small-first (statement menu, variable amounts, ordered pairs, then the one-send products); after EVERY run, failed ones included: machine.Zero == 0, ledger.Zero == 0, compiled program (instructions, constant resources) unchanged; distinct_nontrivial = distinct programs that compiled AND had at least one successful run producing >= 1 posting",
 		"samples":                       samples.List(),
 		"exhaustive":                    all,
 		"stages":                        stages,
@@ -278,6 +354,13 @@ func c22() int {
 		"runs_balance_checked":          balancesChecked.Load(),
 		"tracked_pairs_checked":         balancePairs.Load(),
 		"two_send_runs_attributed":      twoSend.Load(),
+		"balance_var_sends_checked":     balVarSends.Load(),
+		"bal_var_sends_after_credit":    balVarAfterCredit.Load(),
+		"bal_var_sends_after_change":    balVarAfterChange.Load(),
+		"credits_after_save_all":        creditAfterSaveAll.Load(),
+		"global_state_checks":           guard.Checks.Load(),
+		"compiled_program_checks":       programChecks.Load(),
+		"runs_redone_after_damage":      guard.Redone.Load(),
 		"reference_undecided_sends":     refUndecided.Load(),
 		"traces_validated_against_impl": st.Evals.Load(),
 	}
@@ -285,7 +368,19 @@ func c22() int {
 	return r.Finish(cov, []string{
 		"the machine is driven with the call sequence of MachineNumscriptRuntimeAdapter.Execute (NewMachine, SetVarsFromJSON, ResolveResources, ResolveBalances, Execute) on an in-memory store that answers every balance query with the case's vector (0 for unknown pairs)",
 		"postings of a two-send program are attributed by running its first statement alone on the same input and requiring its postings to be a prefix (a mismatch is an engine error)",
+		"the amount of a send whose amount is a balance() variable is the input vector's balance of that account (resolved before execution), whatever earlier statements did to the account",
+		"state outliving a run = the exported package-level values of internal/machine and internal (machine.Zero, ledger.Zero) and the compiled program; every run holds a read lock, a run that finds the state damaged is redone alone under the write lock from restored values, and only a run that damages it again when alone is reported (signature C22:global-state:<value>)",
 		"`save` is read as lowering the tracked balance (monetary: minus the amount; `*`: to 0 if positive); programs with save use signature suffix :with-save",
 		"a send's expected sum is amount minus what the reference destination evaluator routes to `kept` (allotment split = floor + leftover to earliest parts, the C24 rule)",
 	})
+}
+
+func runOutcome(res *machineRun) string {
+	switch {
+	case res.Panic != nil:
+		return "panic"
+	case res.Err != nil:
+		return res.Stage + ":" + errKind(res.Err)
+	}
+	return "ok"
 }
